@@ -86,6 +86,67 @@ pub fn families() -> Vec<(&'static str, String)> {
             v.push(("year-edges", compose(yy, 6, 15, h, mi, s, sp, "", "Z")));
         }
     }
+    // the same per-field and calendar tables inside strings that carry a fraction and / or a numeric zone (a fast path
+    // for one popular shape must range-check its fields like the general parser)
+    for ext in [false, true] {
+        let sp = [ext; 4];
+        let zc = if ext {
+            ":"
+        } else {
+            ""
+        };
+        let shapes: [(&str, String); 5] =
+            [("", format!("+01{}00", zc)), ("", format!("-05{}30", zc)), (".000", "Z".to_string()), (".000", format!("+01{}00", zc)), (",5", format!("-05{}30", zc))];
+        for (frac, zone) in shapes.iter() {
+            for x in 0..100i64 {
+                v.push(("field-in-shape", compose(y, x, d, h, mi, s, sp, frac, zone)));
+                v.push(("field-in-shape", compose(y, mo, x, h, mi, s, sp, frac, zone)));
+                v.push(("field-in-shape", compose(y, mo, d, x, mi, s, sp, frac, zone)));
+                v.push(("field-in-shape", compose(y, mo, d, h, x, s, sp, frac, zone)));
+                v.push(("field-in-shape", compose(y, mo, d, h, mi, x, sp, frac, zone)));
+            }
+            for yy in [2024i64, 2023, 2100, 2000] {
+                for m in [2i64, 4, 6, 9, 11, 12] {
+                    for dd in 28..=31 {
+                        v.push(("month-lengths-in-shape", compose(yy, m, dd, h, mi, s, sp, frac, zone)));
+                    }
+                }
+            }
+        }
+        // values some ISO-8601 readings tolerate in one context: end-of-day 24:00:00 and leap seconds :60 / :61 — out of
+        // range here, in every shape and on the days real leap seconds were inserted
+        for (yy, m, dd) in [(2015i64, 8i64, 30i64), (2016, 12, 31), (2015, 6, 30), (2017, 1, 1)] {
+            for (frac, zone) in [("", "Z".to_string()), (".5", "Z".to_string()), ("", format!("+00{}00", zc)), (",25", format!("-01{}00", zc))] {
+                for (hh, mm, ss) in [(24i64, 0i64, 0i64), (24, 0, 1), (24, 30, 0), (23, 59, 60), (23, 59, 61), (0, 0, 60), (12, 36, 60), (12, 36, 61)] {
+                    v.push(("end-of-day-and-leap-second", compose(yy, m, dd, hh, mm, ss, sp, frac, &zone)));
+                }
+            }
+        }
+        // years across the whole range, each also with a fraction and an offset; pre-1970 instants with sub-seconds
+        for yy in [3i64, 100, 999, 1000, 1582, 1677, 1678, 1900, 1969, 1970, 2038, 2106, 2262, 2263, 2400, 3000, 5000, 9997] {
+            v.push(("years", compose(yy, 6, 15, h, mi, s, sp, "", "Z")));
+            v.push(("years", compose(yy, 12, 31, 23, 59, 59, sp, ".5", "Z")));
+            v.push(("years", compose(yy, 2, 28, 23, 30, 0, sp, ".25", &format!("-01{}00", zc))));
+            v.push(("years", compose(yy, 1, 1, 0, 10, 0, sp, ",999999999", &format!("+14{}00", zc))));
+        }
+        for cc in 0..100i64 {
+            v.push(("year-digits", compose(cc * 100 + 15, 8, 30, h, mi, s, sp, "", "Z")));
+            v.push(("year-digits", compose(2000 + cc, 8, 30, h, mi, s, sp, "", "Z")));
+        }
+    }
+    // bytes around or inside the value that only a Unicode-aware or white-space-tolerant reader would skip
+    for base in ["20150830T123607Z", "2015-08-30T12:36:07+01:00"] {
+        for pad in ["\t", "\u{a0}", "\u{85}", " \t", "\t ", "\u{a0} ", "\n", "\r\n", "\u{b}", "\u{c}"] {
+            v.push(("edge-padding", format!("{}{}", pad, base)));
+            v.push(("edge-padding", format!("{}{}", base, pad)));
+            v.push(("edge-padding", format!("{}{}{}", pad, base, pad)));
+        }
+        for odd in ["\u{b2}", "\u{b9}", "\u{e9}", "\u{a0}"] {
+            let mut b: Vec<char> = base.chars().collect();
+            b[7] = odd.chars().next().unwrap();
+            v.push(("edge-padding", b.into_iter().collect()));
+        }
+    }
     // all 2^5 separator combinations (four field separators + the offset colon)
     for bits in 0..32u32 {
         let sp = [bits & 1 != 0, bits & 2 != 0, bits & 4 != 0, bits & 8 != 0];
@@ -98,9 +159,9 @@ pub fn families() -> Vec<(&'static str, String)> {
         v.push(("separators", compose(y, mo, d, h, mi, s, sp, "", "Z")));
     }
     // a sign, blank or letter in place of any single character of the compact and extended forms
-    for base in ["20150830T123607Z", "2015-08-30T12:36:07Z", "20150830T123607+0100", "20150830T123607.5Z"] {
+    for base in ["20150830T123607Z", "2015-08-30T12:36:07Z", "20150830T123607+0100", "20150830T123607.5Z", "2015-08-30T12:36:07.000Z", "2015-08-30T12:36:07+01:00"] {
         for pos in 0..base.len() {
-            for c in ['+', '-', ' ', 'x', '0', ':', '.'] {
+            for c in ['+', '-', ' ', 'x', '0', ':', '.', '1', '3', '6', '9'] {
                 let mut b: Vec<char> = base.chars().collect();
                 if b[pos] == c {
                     continue;
@@ -128,7 +189,7 @@ pub fn families() -> Vec<(&'static str, String)> {
 
 pub fn mutate_string(r: &mut Rng, s: &str) -> String {
     let mut b: Vec<char> = s.chars().collect();
-    let alphabet: Vec<char> = "0123456789TZ+-:.,tz ".chars().collect();
+    let alphabet: Vec<char> = "0123456789TZ+-:.,tz \t\u{a0}\u{b2}".chars().collect();
     for _ in 0..1 + r.usize_below(2) {
         match r.below(4) {
             0 if !b.is_empty() => {
@@ -368,12 +429,16 @@ pub fn run(tier: Tier) -> i32 {
     ctx.gate("must-reject strings refused with the ISO-8601 class", tally.get("must-reject/via-query"), tier.n(1000, 20_000));
     ctx.gate("accepted timestamps whose UTC date differs from the local date", tally.get("utc_date_differs_from_local"), tier.n(1000, 5000));
     ctx.gate("month-length probes", tally.get("must-accept/month-lengths") + tally.get("must-reject/month-lengths"), 480);
-    ctx.gate("enumerated family strings", tally.get("family_strings_total"), 4300);
+    ctx.gate("enumerated family strings", tally.get("family_strings_total"), 11_000);
+    ctx.gate("per-field values inside fraction / numeric-zone shapes decided", tally.get("must-accept/field-in-shape") + tally.get("must-reject/field-in-shape"), 20_000);
+    ctx.gate("end-of-day (24:00:00) and leap-second (:60, :61) strings refused", tally.get("must-reject/end-of-day-and-leap-second"), 500);
+    ctx.gate("years 0003–9997 (with fractions and offsets) accepted", tally.get("must-accept/years") + tally.get("must-accept/year-digits"), 3_000);
+    ctx.gate("values padded or altered with TAB / NBSP / NEL / Latin-1 digits refused", tally.get("must-reject/edge-padding"), 100);
     ctx.exhaustive("every two-digit value 00–99 of month, day, hour, minute, second, offset hour, offset minute (others fixed) × basic/extended", true);
     ctx.exhaustive("all 32 separator combinations; all offsets −14:00…+14:00 in 15-min steps × 2 spellings; fraction lengths 0–13, 20; days 28–31 of every month in 5 years", true);
     let rep = Report {
         level: "exploration",
-        rule: "Timestamp strings: exhaustive per-field tables (each two-digit value of each field with the others fixed, basic and extended), all separator combinations, all offsets in 15-minute steps (also next to midnight), fraction lengths, month lengths in leap / non-leap / century years, year edges, ~50 structural junk strings, random renderings of random instants and 1–2-edit mutations of them; each sent as X-Amz-Date header, as Date header and as X-Amz-Date query parameter in requests validly signed for the instant the reference parser assigns, with the server clock exactly at both window bounds (so a deviation of the parsed instant by 1 ns in either direction flips the decision) and at the instant itself. Oracle: three-valued recursive-descent reference parser with integer calendar arithmetic; must-accept ⇒ accepted (signature covers the compact UTC rendering, the provider is asked for the UTC date); must-reject ⇒ ISO-8601 IncompleteSignature/400; silent ⇒ if accepted as a date the instant must still be the reference one. Distinct = distinct (string, carrier, clock) probes decided in agreement.".into(),
+        rule: "Timestamp strings: exhaustive per-field tables (each two-digit value of each field with the others fixed, basic and extended), all separator combinations, all offsets in 15-minute steps (also next to midnight), fraction lengths, month lengths in leap / non-leap / century years, year edges, the per-field and month-length tables again inside shapes with a fraction and / or a numeric zone, end-of-day 24:00:00 and leap seconds :60/:61 on real leap-second days, 18 years from 0003 to 9997 and every century / year-in-century digit pair, values padded with TAB / NBSP / NEL / CR LF or carrying Latin-1 digits, ~50 structural junk strings, random renderings of random instants and 1–2-edit mutations of them; each sent as X-Amz-Date header, as Date header and as X-Amz-Date query parameter in requests validly signed for the instant the reference parser assigns, with the server clock exactly at both window bounds (so a deviation of the parsed instant by 1 ns in either direction flips the decision) and at the instant itself. Oracle: three-valued recursive-descent reference parser with integer calendar arithmetic; must-accept ⇒ accepted (signature covers the compact UTC rendering, the provider is asked for the UTC date); must-reject ⇒ ISO-8601 IncompleteSignature/400; silent ⇒ if accepted as a date the instant must still be the reference one. Distinct = distinct (string, carrier, clock) probes decided in agreement.".into(),
         assumptions: vec!["mixed basic/extended separators, offset hours 15–23, -00:00, lower-case designators, year 0000/9999 and fractions > 12 digits are outside the statement (DESIGN §6)".into()],
         extra: J::obj().set("calibrated_vectors", J::i(pre.unwrap_or(0) as i64)),
     };
